@@ -117,7 +117,90 @@ func deepEq(a, b any) bool {
 	if ra.IsValid() && rb.IsValid() && ra.Kind() == reflect.Func && rb.Kind() == reflect.Func {
 		return ra.IsNil() == rb.IsNil()
 	}
-	return reflect.DeepEqual(a, b)
+	return eqNaN(ra, rb)
+}
+
+// eqNaN: reflect.DeepEqual, except that floating-point numbers are compared by what they are
+// (a NaN equals a NaN): the observation asks "is this the same value as before", not "does ==
+// hold"
+func eqNaN(a, b reflect.Value) bool {
+	if !a.IsValid() || !b.IsValid() {
+		return a.IsValid() == b.IsValid()
+	}
+	if a.Type() != b.Type() {
+		return false
+	}
+	switch a.Kind() {
+	case reflect.Float32, reflect.Float64:
+		x, y := a.Float(), b.Float()
+		return x == y || (x != x && y != y)
+	case reflect.Complex64, reflect.Complex128:
+		x, y := a.Complex(), b.Complex()
+		re := real(x) == real(y) || (real(x) != real(x) && real(y) != real(y))
+		im := imag(x) == imag(y) || (imag(x) != imag(x) && imag(y) != imag(y))
+		return re && im
+	case reflect.Interface, reflect.Ptr:
+		if a.IsNil() || b.IsNil() {
+			return a.IsNil() == b.IsNil()
+		}
+		if a.Kind() == reflect.Ptr && a.Pointer() == b.Pointer() {
+			return true
+		}
+		return eqNaN(a.Elem(), b.Elem())
+	case reflect.Slice:
+		if a.IsNil() != b.IsNil() || a.Len() != b.Len() {
+			return false
+		}
+		for i := 0; i < a.Len(); i++ {
+			if !eqNaN(a.Index(i), b.Index(i)) {
+				return false
+			}
+		}
+		return true
+	case reflect.Array:
+		for i := 0; i < a.Len(); i++ {
+			if !eqNaN(a.Index(i), b.Index(i)) {
+				return false
+			}
+		}
+		return true
+	case reflect.Struct:
+		for i := 0; i < a.NumField(); i++ {
+			if !eqNaN(a.Field(i), b.Field(i)) {
+				return false
+			}
+		}
+		return true
+	case reflect.Map:
+		if a.IsNil() != b.IsNil() || a.Len() != b.Len() {
+			return false
+		}
+		for _, k := range a.MapKeys() {
+			bv := b.MapIndex(k)
+			if !bv.IsValid() || !eqNaN(a.MapIndex(k), bv) {
+				return false
+			}
+		}
+		return true
+	}
+	switch a.Kind() {
+	case reflect.Bool:
+		return a.Bool() == b.Bool()
+	case reflect.Int, reflect.Int8, reflect.Int16, reflect.Int32, reflect.Int64:
+		return a.Int() == b.Int()
+	case reflect.Uint, reflect.Uint8, reflect.Uint16, reflect.Uint32, reflect.Uint64, reflect.Uintptr:
+		return a.Uint() == b.Uint()
+	case reflect.String:
+		return a.String() == b.String()
+	case reflect.Chan, reflect.UnsafePointer:
+		return a.Pointer() == b.Pointer()
+	case reflect.Func:
+		return a.IsNil() == b.IsNil() // functions cannot be compared: nil against nil, non-nil against non-nil
+	}
+	if a.CanInterface() && b.CanInterface() {
+		return reflect.DeepEqual(a.Interface(), b.Interface())
+	}
+	return false
 }
 
 type BScen struct {
